@@ -288,7 +288,7 @@ def writeChain (v : Vol) (fat : List Nat) (hint : Nat) (chain : List Nat) (size 
         | none, _ => .error .eio
         | _, none => .error .noSpace
 
-/-- `openbin(path, "r+b")`, `seek(pos)`, `write(n bytes)`, `close()`; `n > 0`, `pos ≤ size` -/
+/-- `openbin(path, "r+b")`, `seek(pos)`, `write(n bytes)`, `close()` -/
 def fwrite (v : Vol) (s : St) (path : List Nat) (pos n : Nat) : St × Res :=
   match splitLast path with
   | none => (s, .err .fileExpected)
@@ -296,10 +296,12 @@ def fwrite (v : Vol) (s : St) (path : List Nat) (pos n : Nat) : St × Res :=
     match resolve s.nodes path, resolve s.nodes dir with
     | some (.node f), some ploc =>
       if f.isDir then (s, .err .fileExpected) else
+      if n = 0 then (flush s, .ok true) else        -- `write(b"")` returns at once; `close()` flushes
       match writeChain v s.fat s.hint f.chain f.size pos n with
       | .error e => (flush s, .err e)
       | .ok (fat, hint, chain) =>
-        let f' := { f with chain := chain, size := max f.size (pos + n) }
+        -- `seek` clamps the position to the size (known finding D17c): the bytes land at `min pos size`
+        let f' := { f with chain := chain, size := max f.size (min pos f.size + n) }
         let s1 := { s with fat := fat, hint := hint }
         match updateDir v s1 (replaceNode s1.nodes f f') ploc with
         | .error e => (flush { s1 with nodes := replaceNode s1.nodes f f' }, .err e)
